@@ -2,13 +2,13 @@
 from __future__ import annotations
 
 import ast
-from typing import List, Optional, Set
+from typing import List, Optional, Set, Tuple
 
 from ..cfg import NORMAL, Node
 from ..core import Ctx
 from ..flow import ALL, find_path, names_in
 from ..model import AnalysisError, FunctionInfo, dotted, norm_text
-from .common import edge_target, kwarg, path_arg, reachable_from
+from .common import edge_target, effective_test, eval3, kwarg, path_arg, reachable_from, str_consts
 
 EXPLANATION = (
     "Static analysis of the in-flight marker protocol: (R1) dominance + def-use: every write of a data file, manifest "
@@ -35,6 +35,7 @@ def check(ctx: Ctx) -> None:
     c07_r1(ctx, "C06.R5")
     from .c20 import r5 as c20_r5
     c20_r5(ctx, "C06.R6")
+    r_honoured(ctx, "C06.R7")
 
 
 def r1(ctx: Ctx, rid: str) -> None:
@@ -172,6 +173,166 @@ def r3(ctx: Ctx, rid: str = "C06.R3") -> None:
            "the later metadata read sees that commit. Reading metadata first leaves a window in which a commit lands and "
            "drops its markers between the two reads; its (old enough) files are then neither reachable nor protected.",
            witness=[f"{col.file}:{r0.lineno} {r0.text}", f"{col.file}:{prot[0].lineno} {prot[0].text}"] if not ok else None)
+
+
+def fresh_edges(ctx: Ctx, f: FunctionInfo) -> Tuple[Set[Tuple[int, int]], Set[Tuple[int, int]], List[Node]]:
+    """In the marker sweep: the CFG edges taken when the marker is FRESH / STALE, from branches on the age test
+    (`mtime*1000 >= now - timeout`, directly or through a flag variable whose other definitions are the constant True)."""
+    g = ctx.cfg(f)
+    sl = ctx.slicer(f)
+    rd = ctx.rd(f)
+
+    def has_stat(org) -> bool:
+        return any(isinstance(c, ast.Call) and isinstance(c.func, ast.Attribute) and c.func.attr == "get_modified_time" for c in org["calls"])
+
+    def fresh_on_true(cmp_: ast.AST, at: int) -> Optional[bool]:
+        if not (isinstance(cmp_, ast.Compare) and len(cmp_.ops) == 1 and isinstance(cmp_.ops[0], (ast.Lt, ast.LtE, ast.Gt, ast.GtE))):
+            return None
+        lo, ro = sl.origins(cmp_.left, at), sl.origins(cmp_.comparators[0], at)
+        if has_stat(lo) == has_stat(ro):
+            return None
+        gt = isinstance(cmp_.ops[0], (ast.Gt, ast.GtE))
+        return gt if has_stat(lo) else not gt  # mtime >= cutoff  <=>  fresh
+
+    fresh: Set[Tuple[int, int]] = set()
+    stale: Set[Tuple[int, int]] = set()
+    brs: List[Node] = []
+    for b in g.nodes:
+        if b.kind != "branch" or b.ast is None or b.id not in g.reachable():
+            continue
+        fot: Optional[bool] = None
+        if isinstance(b.ast, ast.Compare):
+            fot = fresh_on_true(b.ast, b.id)
+        elif isinstance(b.ast, ast.Name):
+            vals = []
+            for d in rd.reaching(b.id, b.ast.id):
+                dn = g.nodes[d]
+                if d == g.entry or not isinstance(dn.ast, ast.Assign):
+                    vals.append(None)
+                elif isinstance(dn.ast.value, ast.Constant) and dn.ast.value.value is True:
+                    continue  # "cannot stat -> treat as fresh"
+                else:
+                    vals.append(fresh_on_true(dn.ast.value, d))
+            if vals and all(v is not None for v in vals) and len(set(vals)) == 1:
+                fot = vals[0]
+        if fot is None:
+            continue
+        brs.append(b)
+        for d, l in g.succ[b.id]:
+            if l == ("true" if fot else "false"):
+                fresh.add((b.id, d))
+            elif l == ("false" if fot else "true"):
+                stale.add((b.id, d))
+    return fresh, stale, brs
+
+
+def r_honoured(ctx: Ctx, rid: str) -> None:
+    ctx.rule(rid, "the collector honours every fresh marker: in the marker sweep each listed *.inflight entry that is not stale "
+             "reaches protected.add(<its target>); the target of a marker with a payload is the payload's path", 3)
+    lp = ctx.fn(GC + "._load_inflight_protection")
+    g = ctx.cfg(lp)
+    loops = [l for l in g.nodes if l.kind == "loop" and isinstance(l.ast, ast.For)]
+    lsl = ctx.slicer(lp)
+    mloops = [l for l in loops if any(isinstance(c, ast.Call) and (dotted(c.func) or "").endswith("list_files")
+                                      for c in lsl.origins(l.ast.iter, l.id)["calls"])]  # type: ignore[union-attr]
+    if not mloops:
+        raise AnalysisError("marker loop vanished from _load_inflight_protection")
+    ml = mloops[0]
+    rets = [n for n in g.nodes if n.kind == "return" and n.id in g.reachable()]
+    rnames = {nm for r in rets for nm in names_in(r.ast.value)}  # type: ignore[union-attr]
+    adds = [n for n in g.calls() if isinstance(n.ast, ast.Call) and isinstance(n.ast.func, ast.Attribute)
+            and n.ast.func.attr in ("add", "update") and dotted(n.ast.func.value) in rnames]
+    ctx.ob(rid, lp, "the returned set is populated inside the marker loop", adds[0] if adds else ml,
+           bool(adds) and all(any(fr.kind == "loop" and fr.node is ml.ast for fr in a.frames) for a in adds), "", nontrivial=False)
+    # the added value is the marker's target
+    for a in adds:
+        org = lsl.origins(a.ast.args[0] if a.ast.args else None, a.id)  # type: ignore[union-attr]
+        ok = any(isinstance(c, ast.Call) and (dotted(c.func) or "").endswith("_marker_target") for c in org["calls"])
+        ctx.ob(rid, lp, "what is protected is the marker's target", a, ok, "protected.add(self._marker_target(...))")
+    fresh, stale, age_b = fresh_edges(ctx, lp)
+    # edges taken for entries that are NOT markers: `<name>.endswith(<suffix>)` false (possibly through a flag)
+    not_marker: Set[Tuple[int, int]] = set()
+    for b in g.nodes:
+        et = effective_test(ctx, lp, b) if b.kind == "branch" and b.id in g.reachable() else None
+        if et is None:
+            continue
+        e = et[0]
+        if isinstance(e, ast.Call) and isinstance(e.func, ast.Attribute) and e.func.attr == "endswith" \
+                and any("inflight" in v for v in str_consts(ctx, lp, e)):
+            not_marker |= {(b.id, d) for d, l in g.succ[b.id] if l == "false"}
+    body = edge_target(g, ml, "true")
+    w = None
+    if body is not None and adds:
+        w = find_path(g, body, [ml.id], avoid=[a.id for a in adds], labels=NORMAL,
+                      edge_ok=lambda s_, d_, l_: (s_, d_) not in stale and (s_, d_) not in not_marker)
+    ctx.ob(rid, lp, "every fresh *.inflight entry reaches protected.add", ml, bool(adds) and bool(age_b) and w is None,
+           "an iteration may leave the loop body without protecting its file only for a non-marker entry or a stale marker; "
+           "otherwise the files of a transaction in flight look like orphans to the sweep", witness=ctx.path_witness(lp, w))
+    # _marker_target: a payload that names a path determines the result
+    mt = ctx.fn(GC + "._marker_target")
+    mg = ctx.cfg(mt)
+    msl = ctx.slicer(mt)
+    tdefs = [n for n in mg.nodes if n.kind == "stmt" and isinstance(n.ast, ast.Assign) and len(n.ast.targets) == 1
+             and isinstance(n.ast.targets[0], ast.Name) and isinstance(n.ast.value, ast.Call)
+             and isinstance(n.ast.value.func, ast.Attribute) and n.ast.value.func.attr == "get"
+             and n.ast.value.args and ctx.prog.const_str(n.ast.value.args[0], mt.module, mt) == "file_path"]
+    if not tdefs:
+        sub = [n for n in mg.nodes if n.kind == "stmt" and isinstance(n.ast, ast.Assign) and len(n.ast.targets) == 1
+               and isinstance(n.ast.targets[0], ast.Name) and isinstance(n.ast.value, ast.Subscript)
+               and ctx.prog.const_str(n.ast.value.slice, mt.module, mt) == "file_path"]
+        tdefs = sub
+    if not tdefs:
+        raise AnalysisError("_marker_target no longer reads the payload's 'file_path'")
+    td = tdefs[0]
+    tv = td.ast.targets[0].id  # type: ignore[union-attr]
+
+    def atom_valid(x: ast.AST) -> Optional[bool]:
+        # scenario: the payload names a path (a non-empty str)
+        if isinstance(x, ast.Name) and x.id == tv:
+            return True
+        if isinstance(x, ast.Call) and isinstance(x.func, ast.Name) and x.func.id == "isinstance" and len(x.args) == 2 \
+                and isinstance(x.args[0], ast.Name) and x.args[0].id == tv:
+            types = {dotted(t) for t in (x.args[1].elts if isinstance(x.args[1], ast.Tuple) else [x.args[1]])}
+            return "str" in types
+        if isinstance(x, ast.Compare) and len(x.ops) == 1 and isinstance(x.left, ast.Name) and x.left.id == tv \
+                and isinstance(x.comparators[0], ast.Constant):
+            cv = x.comparators[0].value
+            if cv is None or cv == "":
+                if isinstance(x.ops[0], (ast.Is, ast.Eq)):
+                    return False
+                if isinstance(x.ops[0], (ast.IsNot, ast.NotEq)):
+                    return True
+        return None
+
+    # walk the CFG from the payload read under the scenario
+    seen: Set[int] = set()
+    work = [d for d, l in mg.succ[td.id] if l in NORMAL]
+    reached: List[Node] = []
+    undecided = False
+    while work:
+        x = work.pop()
+        if x in seen:
+            continue
+        seen.add(x)
+        nx = mg.nodes[x]
+        if nx.kind == "return":
+            reached.append(nx)
+            continue
+        if nx.kind == "branch" and nx.ast is not None:
+            v = eval3(nx.ast, atom_valid)
+            if v is None and tv in names_in(nx.ast):
+                undecided = True
+            for d, l in mg.succ[x]:
+                if l in NORMAL and (v is None or l == ("true" if v else "false") or l not in ("true", "false")):
+                    work.append(d)
+            continue
+        work.extend(d for d, l in mg.succ[x] if l in NORMAL)
+    bad = [r for r in reached if tv not in msl.origins(r.ast.value, r.id)["names"]]  # type: ignore[union-attr]
+    ctx.ob(rid, mt, "a marker payload naming a path determines the protected path", bad[0] if bad else td,
+           undecided or (bool(reached) and not bad),
+           "with a non-empty string payload every return derives from it (the legacy data/<basename> convention is only the "
+           "fallback): manifests and manifest lists of a commit in progress are protected under their own paths"
+           + (" [guard not evaluable: undecided]" if undecided else ""))
 
 
 def r4(ctx: Ctx) -> None:
